@@ -146,13 +146,16 @@ def h_net_new(w, st, rec):
     fired0 = peer().fired
     log0 = len(peer().log)
     pre = (digest(graph), digest(data))
-    out = w.call(lambda: S.DRFNet(graph, data, verbose=bool(rec.get("verbose"))))
+    out = w.call(lambda: S.DRFNet(graph, data, verbose=bool(rec.get("verbose"))), arm=rec.get("arm"))
     post = (digest(graph), digest(data))
     peer().disarm()
     failed_peer = peer().fired > fired0
     if failed_peer:
         w.faults["peer.error"] += 1
         w.faults["peer.error:fit"] += 1
+    if rec.get("arm") is not None and out[0] == "exc" and "injected by simulator" in str(out[1]):
+        w.probes["construction_died_in_a_numpy_call"] += 1
+        failed_peer = True
     w.apis[site] += 1
     if rec.get("verbose"):
         w.probes["verbose"] += 1
@@ -488,6 +491,9 @@ def h_net_sample(w, st, rec):
     else:
         out = w.call(lambda: obj.sample(n, random_state=seed), arm=rec.get("arm"))
     alloc_calls = w.last_seam_calls.get("pd.DataFrame", 0)
+    np_calls = w.last_seam_calls.get("np.*", 0)
+    if rec.get("arm") is not None and rec["arm"][0] == "np.*" and out[0] == "exc" and "injected by simulator" in str(out[1]):
+        w.faults["seam.raise:np.*"] += 1
     alloc_failed = rec.get("arm") is not None and out[0] == "exc" and isinstance(out[1], MemoryError)
     if alloc_failed:
         w.faults["alloc.fail"] += 1
@@ -620,7 +626,20 @@ def h_net_sample(w, st, rec):
             if o2[0] == "ok":
                 for cls, s2, detail in check_sample(w, st, rec["net"], net, dict(rec, n=n), o2[1], peer().log[l0:]):
                     w.violate("wrong_data_after_peer_fault", s2, dict(detail, underlying=cls, failed_allocation=k))
-        if (M or alloc_calls) and rec.get("seed") is not None:
+        # ... and over the numpy calls the library makes during this call (allocation failure / Ctrl-C, seam np.*)
+        npcalls = np_calls
+        pos = list(range(1, npcalls + 1)) if npcalls <= 8 else sorted({1 + (i * (npcalls - 1)) // 7 for i in range(8)})
+        for k in pos:
+            l0 = len(peer().log)
+            o2 = w.call(lambda: obj.sample(n, random_state=seed),
+                        arm=["np.*", k, "MemoryError" if k % 2 else "KeyboardInterrupt"])
+            w.probes["sweep.np_star_positions"] += 1
+            if o2[0] == "exc" and "injected by simulator" in str(o2[1]):
+                w.faults["seam.raise:np.*"] += 1
+            if o2[0] == "ok":
+                for cls, s2, detail in check_sample(w, st, rec["net"], net, dict(rec, n=n), o2[1], peer().log[l0:]):
+                    w.violate("wrong_data_after_peer_fault", s2, dict(detail, underlying=cls, failed_numpy_call=k))
+        if (M or alloc_calls or npcalls) and rec.get("seed") is not None:
             o3 = w.call(lambda: obj.sample(n, random_state=seed))
             if o3[0] != "ok" or digest(o3[1]) != digest(S):
                 w.violate("seeded_sample_differs", site, {"what": "network not as usable as before after peer failures",
@@ -961,7 +980,31 @@ def generate(run_seed, deep=False):
                 ops.append({"c": c, "op": "py.import", "module": g.choice(IMPORTABLE)})
             else:
                 ops.append({"c": c, "op": "gc"})
+    np_star_faults(st["np_star"], ops)
     return cfg, ops
+
+
+def np_star_faults(f, ops):
+    """Seam "np.*" (any numpy call made by sempler.semi / drf.code fails: allocation failure or Ctrl-C), decided by a
+    stream of its own after the history was generated: half of the failing-allocation samples die in a numpy call
+    instead, and now and then an identical network is being built - and dies half-way - in the middle of the session."""
+    rate = f.choice([0, 0.1, 0.3])
+    news = [r for r in ops if r.get("op") == "net.new" and not r.get("invalid")]
+    i, extra = 0, 0
+    while i < len(ops):
+        rec = ops[i]
+        r, r2, k, e = f.random(), f.random(), 1 + int(f.expovariate(1 / 6.0)), f.choice(["MemoryError", "KeyboardInterrupt"])
+        if rec.get("op") == "net.sample":
+            if rec.get("arm") is not None and r2 < 0.5:
+                rec["arm"] = ["np.*", k, e]
+            if news and r < rate / 3 and extra < 3 and i > 2:
+                extra += 1
+                dup = copy.deepcopy(f.choice(news))
+                dup.update(id="dying%d" % extra, arm=["np.*", k, e], c=rec.get("c", 0))
+                dup.pop("peer_fault", None)
+                ops.insert(i, dup)
+                i += 1
+        i += 1
 
 
 def generate_giant(g, cfg):
